@@ -246,6 +246,84 @@ Proof.
   cbn [negb orb] in H. destruct (fl_iat f); [now rewrite app_nil_r|discriminate].
 Qed.
 
+Lemma last_snoc {A} (l : list A) x d : last (l ++ [x]) d = x.
+Proof. induction l as [|y l IH]; [reflexivity|]. cbn [app]. destruct (l ++ [x]) eqn:E; [now destruct l|exact IH]. Qed.
+
+Lemma Zrem_quot_blocks n :
+  (if Z.rem (Z.of_nat n) 10 =? 0 then Z.quot (Z.of_nat n) 10 else Z.quot (Z.of_nat n) 10 + 1)%Z
+  = Z.of_nat (if n mod 10 =? 0 then n / 10 else n / 10 + 1).
+Proof.
+  rewrite Z.rem_mod_nonneg, Z.quot_div_nonneg by lia.
+  destruct (Nat.eqb_spec (n mod 10) 0) as [E|E]; destruct (Z.eqb_spec (Z.of_nat n mod 10) 0) as [E'|E']; lia.
+Qed.
+
+Record tab_facts (f : fileR) : Prop := {
+  tf_batches : forall b, In b (all_batches f) -> geti (r_val (bt_ctl b)) "EntryAddendaCount" = Z.of_nat (tree_count b);
+  tf_adv : adv_only f = true;
+  tf_count : geti (r_val (fl_ctl f)) "BatchCount" = Z.of_nat (length (all_batches f));
+  tf_entries : geti (r_val (fl_ctl f)) "EntryAddendaCount" = Z.of_nat (list_sum (map tree_count (all_batches f)));
+  tf_blocks : geti (r_val (fl_ctl f)) "BlockCount"
+              = Z.of_nat (let n := 2 + list_sum (map (fun b => 2 + tree_count b) (all_batches f)) in
+                          if n mod 10 =? 0 then n / 10 else n / 10 + 1) }.
+
+(* [tabulatedb] unfolded: the C05 model's File.Create arithmetic over the projection, in terms of the tree *)
+Lemma tabulated_facts f : tabulatedb f = true -> adv_no_iat f = true -> tab_facts f.
+Proof.
+  unfold tabulatedb. intros H Hno. apply andb_prop in H as [Hb Hf].
+  assert (Hbs : forall b, In b (all_batches f) -> geti (r_val (bt_ctl b)) "EntryAddendaCount" = Z.of_nat (tree_count b)).
+  { intros b Hin. rewrite forallb_forall in Hb. specialize (Hb b Hin). unfold batch_tabulatedb in Hb.
+    apply Z.eqb_eq in Hb. now rewrite Hb, built_count_tree. }
+  unfold file_tabulatedb in Hf. cbv zeta in Hf.
+  repeat match type of Hf with _ && _ = true => let K := fresh "K" in apply andb_prop in Hf as [Hf K] end.
+  apply Z.eqb_eq in K, K0, K1. unfold created_control in K, K0, K1. rewrite (created_all f Hno) in K, K0, K1.
+  unfold Offsets.file_control in K, K0, K1. cbn [Offsets.fc_batches Offsets.fc_blocks Offsets.fc_count] in K, K0, K1.
+  assert (Hc : forall b, In b (all_batches f) ->
+                 Offsets.c_count (Offsets.b_ctl (o_batch b)) = Z.of_nat (tree_count b)).
+  { intros b Hin. unfold o_batch, o_control. cbn [Offsets.b_ctl Offsets.c_count]. now apply Hbs. }
+  constructor.
+  - exact Hbs.
+  - exact Hf.
+  - rewrite K1, map_length. reflexivity.
+  - rewrite K. apply sumb_map_nat. exact Hc.
+  - rewrite K0.
+    rewrite (sumb_map_nat (fun b => (2 + Offsets.c_count (Offsets.b_ctl b))%Z) (fun b => 2 + tree_count b)).
+    + change 2%Z with (Z.of_nat 2). rewrite <- Nat2Z.inj_add. apply Zrem_quot_blocks.
+    + intros b Hin. rewrite (Hc b Hin). lia.
+Qed.
+
+Lemma Forall_map_iff {A B} (P : B -> Prop) (g : A -> B) l : Forall P (map g l) <-> Forall (fun x => P (g x)) l.
+Proof. apply Forall_map. Qed.
+
+Lemma list_sum_map_add {A} (h : A -> nat) l : list_sum (map (fun x => 2 + h x) l) = 2 * length l + list_sum (map h l).
+Proof. induction l as [|x l IH]; [reflexivity|]. cbn [map length]. rewrite !list_sum_cons. lia. Qed.
+
+Lemma map_pair_combine {A B C} (g : A -> B) (h : A -> C) l : map (fun x => (g x, h x)) l = combine (map g l) (map h l).
+Proof. induction l as [|x l IH]; [reflexivity|]. cbn [map combine]. now rewrite IH. Qed.
+
+Definition blocks_of (n : nat) : nat := if n mod 10 =? 0 then n / 10 else n / 10 + 1.
+
+Lemma Forall_of_map {A B} (q : A -> B) (P : B -> Prop) l : Forall P (map q l) -> Forall (fun x => P (q x)) l.
+Proof. apply Forall_map. Qed.
+
+(* the C05 model's file control is the physical count: what the bounds are about *)
+Lemma bounds_physical f : tabulatedb f = true -> adv_no_iat f = true -> count_boundsb f = true ->
+  (Z.of_nat (length (all_batches f)) < pow10 6)%Z
+  /\ (Z.of_nat (list_sum (map tree_count (all_batches f))) < pow10 8)%Z
+  /\ (Z.of_nat (blocks_of (2 + list_sum (map (fun b => 2 + tree_count b) (all_batches f)))%nat) < pow10 6)%Z
+  /\ (forall b, In b (all_batches f) -> (Z.of_nat (tree_count b) < pow10 6)%Z).
+Proof.
+  intros Htab Hno Hb. destruct (tabulated_facts f Htab Hno) as [Fb Fadv Fn Fe Fk].
+  unfold tabulatedb in Htab. apply andb_prop in Htab as [_ Hf]. unfold file_tabulatedb in Hf. cbv zeta in Hf.
+  repeat match type of Hf with _ && _ = true => let K := fresh "K" in apply andb_prop in Hf as [Hf K] end.
+  apply Z.eqb_eq in K, K0, K1.
+  unfold count_boundsb in Hb. cbv zeta in Hb.
+  repeat match type of Hb with _ && _ = true => let B := fresh "B" in apply andb_prop in Hb as [Hb B] end.
+  apply Z.ltb_lt in B, B0, B1. rewrite <- K in B. rewrite <- K0 in B0. rewrite <- K1 in B1.
+  rewrite Fn in B1. rewrite Fe in B. rewrite Fk in B0. cbv zeta in B0.
+  repeat split; try assumption.
+  intros b Hin. rewrite forallb_forall in Hb. specialize (Hb b Hin). apply Z.ltb_lt in Hb. now rewrite built_count_tree in Hb.
+Qed.
+
 Lemma map_eq_pairs {A B C D} (g1 : A -> C) (h1 : B -> C) (g2 : A -> D) (h2 : B -> D) l1 : forall l2,
   map g1 l1 = map h1 l2 -> map g2 l1 = map h2 l2 ->
   forall x, In x l1 -> exists y, In y l2 /\ g1 x = h1 y /\ g2 x = h2 y.
@@ -402,9 +480,6 @@ Qed.
 (* ------------------------------------------------------------------ *)
 (* D. composition                                                       *)
 
-Lemma last_snoc {A} (l : list A) x d : last (l ++ [x]) d = x.
-Proof. induction l as [|y l IH]; [reflexivity|]. cbn [app]. destruct (l ++ [x]) eqn:E; [now destruct l|exact IH]. Qed.
-
 Lemma write_file_last f : last (write_file T f) [] = render_rec T (fl_ctl f).
 Proof.
   unfold write_file, record_lines, struct_of. cbn [f_hdr f_batches f_ctl].
@@ -415,59 +490,6 @@ Qed.
 Lemma write_file_padded_split f :
   write_file_padded T f = write_file T f ++ repeat nines ((10 - length (write_file T f) mod 10) mod 10).
 Proof. apply physical_lines_split. Qed.
-
-Lemma Zrem_quot_blocks n :
-  (if Z.rem (Z.of_nat n) 10 =? 0 then Z.quot (Z.of_nat n) 10 else Z.quot (Z.of_nat n) 10 + 1)%Z
-  = Z.of_nat (if n mod 10 =? 0 then n / 10 else n / 10 + 1).
-Proof.
-  rewrite Z.rem_mod_nonneg, Z.quot_div_nonneg by lia.
-  destruct (Nat.eqb_spec (n mod 10) 0) as [E|E]; destruct (Z.eqb_spec (Z.of_nat n mod 10) 0) as [E'|E']; lia.
-Qed.
-
-Record tab_facts (f : fileR) : Prop := {
-  tf_batches : forall b, In b (all_batches f) -> geti (r_val (bt_ctl b)) "EntryAddendaCount" = Z.of_nat (tree_count b);
-  tf_adv : adv_only f = true;
-  tf_count : geti (r_val (fl_ctl f)) "BatchCount" = Z.of_nat (length (all_batches f));
-  tf_entries : geti (r_val (fl_ctl f)) "EntryAddendaCount" = Z.of_nat (list_sum (map tree_count (all_batches f)));
-  tf_blocks : geti (r_val (fl_ctl f)) "BlockCount"
-              = Z.of_nat (let n := 2 + list_sum (map (fun b => 2 + tree_count b) (all_batches f)) in
-                          if n mod 10 =? 0 then n / 10 else n / 10 + 1) }.
-
-(* [tabulatedb] unfolded: the C05 model's File.Create arithmetic over the projection, in terms of the tree *)
-Lemma tabulated_facts f : tabulatedb f = true -> adv_no_iat f = true -> tab_facts f.
-Proof.
-  unfold tabulatedb. intros H Hno. apply andb_prop in H as [Hb Hf].
-  assert (Hbs : forall b, In b (all_batches f) -> geti (r_val (bt_ctl b)) "EntryAddendaCount" = Z.of_nat (tree_count b)).
-  { intros b Hin. rewrite forallb_forall in Hb. specialize (Hb b Hin). unfold batch_tabulatedb in Hb.
-    apply Z.eqb_eq in Hb. now rewrite Hb, built_count_tree. }
-  unfold file_tabulatedb in Hf. cbv zeta in Hf.
-  repeat match type of Hf with _ && _ = true => let K := fresh "K" in apply andb_prop in Hf as [Hf K] end.
-  apply Z.eqb_eq in K, K0, K1. unfold created_control in K, K0, K1. rewrite (created_all f Hno) in K, K0, K1.
-  unfold Offsets.file_control in K, K0, K1. cbn [Offsets.fc_batches Offsets.fc_blocks Offsets.fc_count] in K, K0, K1.
-  assert (Hc : forall b, In b (all_batches f) ->
-                 Offsets.c_count (Offsets.b_ctl (o_batch b)) = Z.of_nat (tree_count b)).
-  { intros b Hin. unfold o_batch, o_control. cbn [Offsets.b_ctl Offsets.c_count]. now apply Hbs. }
-  constructor.
-  - exact Hbs.
-  - exact Hf.
-  - rewrite K1, map_length. reflexivity.
-  - rewrite K. apply sumb_map_nat. exact Hc.
-  - rewrite K0.
-    rewrite (sumb_map_nat (fun b => (2 + Offsets.c_count (Offsets.b_ctl b))%Z) (fun b => 2 + tree_count b)).
-    + change 2%Z with (Z.of_nat 2). rewrite <- Nat2Z.inj_add. apply Zrem_quot_blocks.
-    + intros b Hin. rewrite (Hc b Hin). lia.
-Qed.
-
-Lemma Forall_map_iff {A B} (P : B -> Prop) (g : A -> B) l : Forall P (map g l) <-> Forall (fun x => P (g x)) l.
-Proof. apply Forall_map. Qed.
-
-Lemma list_sum_map_add {A} (h : A -> nat) l : list_sum (map (fun x => 2 + h x) l) = 2 * length l + list_sum (map h l).
-Proof. induction l as [|x l IH]; [reflexivity|]. cbn [map length]. rewrite !list_sum_cons. lia. Qed.
-
-Lemma map_pair_combine {A B C} (g : A -> B) (h : A -> C) l : map (fun x => (g x, h x)) l = combine (map g l) (map h l).
-Proof. induction l as [|x l IH]; [reflexivity|]. cbn [map combine]. now rewrite IH. Qed.
-
-Definition blocks_of (n : nat) : nat := if n mod 10 =? 0 then n / 10 else n / 10 + 1.
 
 (* the physical quantities of the written text in terms of the tree (no tabulation involved) *)
 Theorem physical_tree f : shape_ok T f = true -> adv_only f = true ->
@@ -503,9 +525,6 @@ Proof.
     + rewrite !map_pair_combine, Blen, Bctl. reflexivity.
     + intros sb Hsb. rewrite Forall_forall in Sin. now rewrite (Sin sb Hsb).
 Qed.
-
-Lemma Forall_of_map {A B} (q : A -> B) (P : B -> Prop) l : Forall P (map q l) -> Forall (fun x => P (q x)) l.
-Proof. apply Forall_map. Qed.
 
 (* declared = physical modulo the width of the column, for every tabulated tree that fits *)
 Theorem create_counts_mod f :
@@ -543,25 +562,6 @@ Proof.
     unfold batch_shape in Hbshape. apply andb_prop in Hbshape as [_ Hkind].
     unfold all_batch in Hbfit. apply andb_prop in Hbfit as [_ Hcfit].
     rewrite (batch_ctl_declared (bt_ctl b) Hkind Hcfit), (Fb b Hb). reflexivity.
-Qed.
-
-(* the C05 model's file control is the physical count: what the bounds are about *)
-Lemma bounds_physical f : tabulatedb f = true -> adv_no_iat f = true -> count_boundsb f = true ->
-  (Z.of_nat (length (all_batches f)) < pow10 6)%Z
-  /\ (Z.of_nat (list_sum (map tree_count (all_batches f))) < pow10 8)%Z
-  /\ (Z.of_nat (blocks_of (2 + list_sum (map (fun b => 2 + tree_count b) (all_batches f)))%nat) < pow10 6)%Z
-  /\ (forall b, In b (all_batches f) -> (Z.of_nat (tree_count b) < pow10 6)%Z).
-Proof.
-  intros Htab Hno Hb. destruct (tabulated_facts f Htab Hno) as [Fb Fadv Fn Fe Fk].
-  unfold tabulatedb in Htab. apply andb_prop in Htab as [_ Hf]. unfold file_tabulatedb in Hf. cbv zeta in Hf.
-  repeat match type of Hf with _ && _ = true => let K := fresh "K" in apply andb_prop in Hf as [Hf K] end.
-  apply Z.eqb_eq in K, K0, K1.
-  unfold count_boundsb in Hb. cbv zeta in Hb.
-  repeat match type of Hb with _ && _ = true => let B := fresh "B" in apply andb_prop in Hb as [Hb B] end.
-  apply Z.ltb_lt in B, B0, B1. rewrite <- K in B. rewrite <- K0 in B0. rewrite <- K1 in B1.
-  rewrite Fn in B1. rewrite Fe in B. rewrite Fk in B0. cbv zeta in B0.
-  repeat split; try assumption.
-  intros b Hin. rewrite forallb_forall in Hb. specialize (Hb b Hin). apply Z.ltb_lt in Hb. now rewrite built_count_tree in Hb.
 Qed.
 
 (* within the widths of the columns (6 digits per batch, 6 / 6 / 8 in the file control) the written numbers ARE the counts *)
